@@ -84,22 +84,24 @@ Qed.
 (* ---- offsets ------------------------------------------------------------------------------- *)
 Lemma at_end_nil : at_end [] = true.  Proof. reflexivity. Qed.
 
-Lemma match_offset_print ip fp (u : text) anchored :
+Lemma match_offset_print ip fp (u : text) :
   is_nonempty_l ip = true -> all_dec ip = true -> all_dec fp = true -> clean_tail u ->
-  match_offset u anchored (chrs ip ++ frac_text fp ++ u) = Some (dec_value (chrs ip) (chrs fp)).
+  match_offset u (chrs ip ++ frac_text fp ++ u) = Some (dec_value (chrs ip) (chrs fp)).
 Proof.
   intros. unfold match_offset. rewrite scan_number_print by assumption.
   assert (Hs : strip_prefix u u = Some []).
   { clear. induction u as [|a u IH]; simpl; [reflexivity|]. rewrite Z.eqb_refl. exact IH. }
-  rewrite Hs. destruct anchored; reflexivity.
+  rewrite Hs. reflexivity.
 Qed.
 
-Lemma match_offset_other ip fp (u v : text) anchored :
+(* a different unit: either it is not a prefix of what follows the number, or something is left after it *)
+Lemma match_offset_other ip fp (u v : text) :
   is_nonempty_l ip = true -> all_dec ip = true -> all_dec fp = true -> clean_tail v ->
-  strip_prefix u v = None ->
-  match_offset u anchored (chrs ip ++ frac_text fp ++ v) = None.
+  match strip_prefix u v with Some r => at_end r = false | None => True end ->
+  match_offset u (chrs ip ++ frac_text fp ++ v) = None.
 Proof.
-  intros. unfold match_offset. rewrite scan_number_print by assumption. rewrite H3. reflexivity.
+  intros. unfold match_offset. rewrite scan_number_print by assumption.
+  destruct (strip_prefix u v); [rewrite H3|]; reflexivity.
 Qed.
 
 Ltac clean := simpl; try exact I; try (split; [reflexivity|discriminate]).
@@ -116,29 +118,26 @@ Section Offsets.
     parse_time_x tr (Some fr) (print_time (TOffset ip fp Mf)) = TVal (N / fr)%Q.
   Proof.
     intro Hz. unfold parse_time_x, print_time, metric_text, U_f, U_t, U_ms, U_s, U_m, U_h.
-    rewrite (match_offset_print ip fp [102] false) by (try assumption; clean).
+    rewrite (match_offset_print ip fp [102]) by (try assumption; clean).
     unfold qdiv_res. rewrite Hz. reflexivity.
   Qed.
 
-  Lemma pt_t tr fr : (tr =? 0) = false ->
-    parse_time_x (Some tr) fr (print_time (TOffset ip fp Mt)) = TVal (N / inject_Z tr)%Q.
+  Lemma pt_t tr fr : Qeq_bool tr 0 = false ->
+    parse_time_x (Some tr) fr (print_time (TOffset ip fp Mt)) = TVal (N / tr)%Q.
   Proof.
     intro Hz. unfold parse_time_x, print_time, metric_text, U_f, U_t, U_ms, U_s, U_m, U_h.
-    rewrite (match_offset_other ip fp [102] [116] false) by (try assumption; clean; reflexivity).
-    rewrite (match_offset_print ip fp [116] true) by (try assumption; clean).
-    assert (Hq : Qeq_bool (inject_Z tr) 0 = false).
-    { apply Z.eqb_neq in Hz. unfold Qeq_bool, inject_Z. simpl. rewrite Z.mul_1_r.
-      destruct tr; [contradiction| reflexivity | reflexivity]. }
-    destruct fr; unfold qdiv_res; rewrite Hq; reflexivity.
+    rewrite (match_offset_other ip fp [102] [116]) by (try assumption; clean; reflexivity).
+    rewrite (match_offset_print ip fp [116]) by (try assumption; clean).
+    destruct fr; unfold qdiv_res; rewrite Hz; reflexivity.
   Qed.
 
   Lemma pt_ms tr fr :
     parse_time_x tr fr (print_time (TOffset ip fp Mms)) = TVal (N / inject_Z 1000)%Q.
   Proof.
     unfold parse_time_x, print_time, metric_text, U_f, U_t, U_ms, U_s, U_m, U_h.
-    rewrite (match_offset_other ip fp [102] [109; 115] false) by (try assumption; clean; reflexivity).
-    rewrite (match_offset_other ip fp [116] [109; 115] true) by (try assumption; clean; reflexivity).
-    rewrite (match_offset_print ip fp [109; 115] true) by (try assumption; clean).
+    rewrite (match_offset_other ip fp [102] [109; 115]) by (try assumption; clean; reflexivity).
+    rewrite (match_offset_other ip fp [116] [109; 115]) by (try assumption; clean; reflexivity).
+    rewrite (match_offset_print ip fp [109; 115]) by (try assumption; clean).
     destruct fr, tr; reflexivity.
   Qed.
 
@@ -146,10 +145,10 @@ Section Offsets.
     parse_time_x tr fr (print_time (TOffset ip fp Ms)) = TVal N.
   Proof.
     unfold parse_time_x, print_time, metric_text, U_f, U_t, U_ms, U_s, U_m, U_h.
-    rewrite (match_offset_other ip fp [102] [115] false) by (try assumption; clean; reflexivity).
-    rewrite (match_offset_other ip fp [116] [115] true) by (try assumption; clean; reflexivity).
-    rewrite (match_offset_other ip fp [109; 115] [115] true) by (try assumption; clean; reflexivity).
-    rewrite (match_offset_print ip fp [115] true) by (try assumption; clean).
+    rewrite (match_offset_other ip fp [102] [115]) by (try assumption; clean; reflexivity).
+    rewrite (match_offset_other ip fp [116] [115]) by (try assumption; clean; reflexivity).
+    rewrite (match_offset_other ip fp [109; 115] [115]) by (try assumption; clean; reflexivity).
+    rewrite (match_offset_print ip fp [115]) by (try assumption; clean).
     destruct fr, tr; reflexivity.
   Qed.
 
@@ -157,11 +156,11 @@ Section Offsets.
     parse_time_x tr fr (print_time (TOffset ip fp Mm)) = TVal (N * inject_Z 60)%Q.
   Proof.
     unfold parse_time_x, print_time, metric_text, U_f, U_t, U_ms, U_s, U_m, U_h.
-    rewrite (match_offset_other ip fp [102] [109] false) by (try assumption; clean; reflexivity).
-    rewrite (match_offset_other ip fp [116] [109] true) by (try assumption; clean; reflexivity).
-    rewrite (match_offset_other ip fp [109; 115] [109] true) by (try assumption; clean; reflexivity).
-    rewrite (match_offset_other ip fp [115] [109] true) by (try assumption; clean; reflexivity).
-    rewrite (match_offset_print ip fp [109] true) by (try assumption; clean).
+    rewrite (match_offset_other ip fp [102] [109]) by (try assumption; clean; reflexivity).
+    rewrite (match_offset_other ip fp [116] [109]) by (try assumption; clean; reflexivity).
+    rewrite (match_offset_other ip fp [109; 115] [109]) by (try assumption; clean; reflexivity).
+    rewrite (match_offset_other ip fp [115] [109]) by (try assumption; clean; reflexivity).
+    rewrite (match_offset_print ip fp [109]) by (try assumption; clean).
     destruct fr, tr; reflexivity.
   Qed.
 
@@ -169,20 +168,20 @@ Section Offsets.
     parse_time_x tr fr (print_time (TOffset ip fp Mh)) = TVal (N * inject_Z 3600)%Q.
   Proof.
     unfold parse_time_x, print_time, metric_text, U_f, U_t, U_ms, U_s, U_m, U_h.
-    rewrite (match_offset_other ip fp [102] [104] false) by (try assumption; clean; reflexivity).
-    rewrite (match_offset_other ip fp [116] [104] true) by (try assumption; clean; reflexivity).
-    rewrite (match_offset_other ip fp [109; 115] [104] true) by (try assumption; clean; reflexivity).
-    rewrite (match_offset_other ip fp [115] [104] true) by (try assumption; clean; reflexivity).
-    rewrite (match_offset_other ip fp [109] [104] true) by (try assumption; clean; reflexivity).
-    rewrite (match_offset_print ip fp [104] true) by (try assumption; clean).
+    rewrite (match_offset_other ip fp [102] [104]) by (try assumption; clean; reflexivity).
+    rewrite (match_offset_other ip fp [116] [104]) by (try assumption; clean; reflexivity).
+    rewrite (match_offset_other ip fp [109; 115] [104]) by (try assumption; clean; reflexivity).
+    rewrite (match_offset_other ip fp [115] [104]) by (try assumption; clean; reflexivity).
+    rewrite (match_offset_other ip fp [109] [104]) by (try assumption; clean; reflexivity).
+    rewrite (match_offset_print ip fp [104]) by (try assumption; clean).
     destruct fr, tr; reflexivity.
   Qed.
 End Offsets.
 
 (* ---- clock times ------------------------------------------------------------------------------ *)
-Lemma match_offset_colon hh rest (u : text) anchored a u' :
+Lemma match_offset_colon hh rest (u : text) a u' :
   is_nonempty_l hh = true -> all_dec hh = true -> u = a :: u' -> a <> 58 ->
-  match_offset u anchored (chrs hh ++ 58 :: rest) = None.
+  match_offset u (chrs hh ++ 58 :: rest) = None.
 Proof.
   intros Hne Hd -> Ha. unfold match_offset, scan_number.
   rewrite span_digits_chrs by (try assumption; reflexivity).
@@ -221,12 +220,12 @@ Section Clock.
   Proof.
     unfold parse_time_x.
     pose proof (len2_nonempty _ Hlen) as Hne.
-    rewrite (match_offset_colon hh rest U_f false 102 []) by (try assumption; try reflexivity; lia).
-    rewrite (match_offset_colon hh rest U_t true 116 []) by (try assumption; try reflexivity; lia).
-    rewrite (match_offset_colon hh rest U_ms true 109 [115]) by (try assumption; try reflexivity; lia).
-    rewrite (match_offset_colon hh rest U_s true 115 []) by (try assumption; try reflexivity; lia).
-    rewrite (match_offset_colon hh rest U_m true 109 []) by (try assumption; try reflexivity; lia).
-    rewrite (match_offset_colon hh rest U_h true 104 []) by (try assumption; try reflexivity; lia).
+    rewrite (match_offset_colon hh rest U_f 102 []) by (try assumption; try reflexivity; lia).
+    rewrite (match_offset_colon hh rest U_t 116 []) by (try assumption; try reflexivity; lia).
+    rewrite (match_offset_colon hh rest U_ms 109 [115]) by (try assumption; try reflexivity; lia).
+    rewrite (match_offset_colon hh rest U_s 115 []) by (try assumption; try reflexivity; lia).
+    rewrite (match_offset_colon hh rest U_m 109 []) by (try assumption; try reflexivity; lia).
+    rewrite (match_offset_colon hh rest U_h 104 []) by (try assumption; try reflexivity; lia).
     destruct fr, tr; reflexivity.
   Qed.
 
@@ -278,8 +277,8 @@ Proof.
 Qed.
 
 Theorem time_syntax e tr fr :
-  wf_texpr e = true -> 0 < tr -> (0 < fr)%Q ->
-  tres_equiv (parse_time_x (Some tr) (Some fr) (print_time e)) (time_value fr (inject_Z tr) e).
+  wf_texpr e = true -> (0 < tr)%Q -> (0 < fr)%Q ->
+  tres_equiv (parse_time_x (Some tr) (Some fr) (print_time e)) (time_value fr tr e).
 Proof.
   intros Hwf Htr Hfr. destruct e as [ip fp m | hh m1 m2 s1 s2 fp | hh m1 m2 s1 s2 ff]; simpl in Hwf.
   - repeat (apply andb_true_iff in Hwf as [Hwf ?]).
@@ -290,7 +289,7 @@ Proof.
     + rewrite pt_s by assumption. cbn. exact HN.
     + rewrite pt_ms by assumption. cbn. rewrite HN. reflexivity.
     + rewrite pt_f by (try assumption; apply Qeq_bool_pos_false; assumption). cbn. rewrite HN. reflexivity.
-    + rewrite pt_t by (try assumption; lia). cbn. rewrite HN. reflexivity.
+    + rewrite pt_t by (try assumption; apply Qeq_bool_pos_false; assumption). cbn. rewrite HN. reflexivity.
   - repeat (apply andb_true_iff in Hwf as [Hwf ?]).
     unfold print_time. cbn [app].
     rewrite (offsets_none_on_clock hh) by assumption.
@@ -309,7 +308,7 @@ Proof.
     destruct (Qle_bool fr (inject_Z (nat_of ff))); cbn [tres_equiv]; [exact I|reflexivity].
 Qed.
 
-(* ---- strings outside the grammar: the recorded finding lax-value-syntax ------------------------ *)
+(* ---- strings outside the grammar ------------------------------------------------------------------ *)
 Definition in_grammar (s : text) : Prop := exists e, wf_texpr e = true /\ print_time e = s.
 
 Lemma chrs_last_digit ds d : all_dec (ds ++ [d]) = true -> is_digit (chr d) = true.
